@@ -5,5 +5,6 @@ INVARIANT TypeOK
 INVARIANT QuoteRoundTrip
 INVARIANT RefFaithful
 INVARIANT NaivePitfalls
+INVARIANT DefaultCTOnlyWithData
 INVARIANT Export
 CHECK_DEADLOCK FALSE
